@@ -104,23 +104,41 @@ def r2_failure_limit(chk: Check) -> None:
     chk.decide(bool(breaks), "C12.R2", ue, "consumer loop breaks on has_to_stop", "the consumer keeps forwarding scenarios after the limit / a stop request", ue.loc())
     # the counter
     cf = P.func("engine/control.py:ExecutionControl.count_failure")
-    cmp_ = [n for n in walk_body(cf.node) if isinstance(n, ast.Compare) and "max_failures" in unparse(n, 200) and "_failures_counter" in unparse(n, 200)]
+    derived = P.maybe_func("engine/control.py:ExecutionControl.has_reached_the_failure_limit")
+    holder = derived if derived is not None else cf
+    cmp_ = [n for n in walk_body(holder.node) if isinstance(n, ast.Compare) and "max_failures" in unparse(n, 200) and "_failures_counter" in unparse(n, 200)]
+    construct = "limit reached when counter >= max_failures"
     if cmp_:
         c = cmp_[0]
-        l, op, r = unparse(c.left), c.ops[0], unparse(c.comparators[0])
-        if "_failures_counter" in l:
-            ok = isinstance(op, (ast.GtE, ast.Eq))
-            off = isinstance(op, ast.Gt)
+        l, op = unparse(c.left), c.ops[0]
+        counter_left = "_failures_counter" in l
+        at_least = isinstance(op, ast.GtE if counter_left else ast.LtE)
+        exact = isinstance(op, ast.Eq)
+        strict = isinstance(op, ast.Gt if counter_left else ast.Lt)
+        if at_least:
+            chk.ok("C12.R2", holder, construct, "", holder.loc(c))
+        elif strict:
+            chk.violation("C12.R2", holder, construct, "the limit trips one failure too late (strict comparison): max_failures+1 failed scenarios are reported", holder.loc(c))
+        elif exact and derived is None:
+            chk.ok("C12.R2", holder, construct, "`==` with a sticky flag set at every increment by one", holder.loc(c))
+        elif exact:
+            chk.violation("C12.R2", holder, construct,
+                          "the limit is a DERIVED condition `counter == max_failures`, which is true for one counter value only: the stateful phase counts every distinct failed check of a step and consults the limit after the step, so the counter can jump from below to above the limit - after that the limit is never reached again, the run goes on and more than max_failures failed scenarios are reported",
+                          holder.loc(c))
         else:
-            ok = isinstance(op, (ast.LtE, ast.Eq))
-            off = isinstance(op, ast.Lt)
-        chk.decide(True if ok else (False if off else None), "C12.R2", cf, "limit reached when counter >= max_failures", "the limit trips one failure too late (strict comparison): max_failures+1 failed scenarios are reported", cf.loc(c))
+            chk.undecided("C12.R2", holder, construct, "comparison operator not recognised", holder.loc(c))
     else:
-        chk.undecided("C12.R2", cf, "limit reached when counter >= max_failures", "comparison not found", cf.loc())
+        chk.undecided("C12.R2", holder, construct, "comparison not found", holder.loc())
     inc = [n for n in walk_body(cf.node) if isinstance(n, ast.AugAssign) and "_failures_counter" in unparse(n.target)]
     chk.decide(bool(inc) and isinstance(inc[0].op, ast.Add) and unparse(inc[0].value) == "1", "C12.R2", cf, "counter += 1", "counter update not recognised", cf.loc())
-    flag = [n for n in walk_body(cf.node) if isinstance(n, ast.Assign) and unparse(n.targets[0]) == "self.has_reached_the_failure_limit"]
-    chk.decide(bool(flag) and isinstance(flag[0].value, ast.Constant) and flag[0].value.value is True, "C12.R2", cf, "has_reached_the_failure_limit = True", "the flag is not set", cf.loc())
+    if derived is None:
+        flag = [n for n in walk_body(cf.node) if isinstance(n, ast.Assign) and unparse(n.targets[0]) == "self.has_reached_the_failure_limit"]
+        chk.decide(bool(flag) and isinstance(flag[0].value, ast.Constant) and flag[0].value.value is True, "C12.R2", cf, "has_reached_the_failure_limit = True", "the flag is not set", cf.loc())
+        resets = [(f, n) for f in P.all_functions() if not isinstance(f.node, ast.Lambda) for n in walk_body(f.node) if isinstance(n, ast.Assign) and any(isinstance(t, ast.Attribute) and t.attr == "has_reached_the_failure_limit" for t in n.targets) and not (isinstance(n.value, ast.Constant) and n.value.value is True)]
+        for f, n in resets:
+            chk.violation("C12.R2", f, "the limit flag is sticky", f"`{unparse(n, 60)}` clears / recomputes the flag: once reached, the limit has to stay reached for the rest of the run", f.loc(n))
+    else:
+        chk.ok("C12.R2", derived, "has_reached_the_failure_limit is derived from the counter", "", derived.loc())
     # plan: skipped phases
     ex = P.func("engine/core.py:ExecutionPlan.execute")
     reason_sets = [n for n in walk_body(ex.node) if isinstance(n, ast.Assign) and isinstance(n.targets[0], ast.Attribute) and n.targets[0].attr == "skip_reason"]
